@@ -36,6 +36,21 @@ def baxis_of(v):
     return None
 
 
+EDGE_ORDERED = ("edges", "edge_vectors", "edge_lengths")
+
+
+def order_of(v):
+    """which enumeration a per-edge / per-face sequence follows, when known."""
+    if v is None:
+        return None
+    for t in v.tags:
+        if isinstance(t, tuple) and t and t[0] == "order":
+            return t[1]
+        if isinstance(t, tuple) and t and t[0] == "getter-of" and t[1] in EDGE_ORDERED:
+            return "edges"
+    return None
+
+
 def batch_tag(*vals):
     ks = set()
     found = False
@@ -212,6 +227,29 @@ class Interp:
         return St({}, {c.name: c.init(self) for c in self.components})
 
     # symbolic store forwarding for scalar fields: atoms always denote entry-time values
+    FLOAT_FUNCS = {"eye", "identity", "zeros", "ones", "sqrt", "sin", "cos", "tan", "norm", "linspace", "mean", "average", "exp", "log",
+                   "arctan2", "arccos", "arcsin", "hypot", "true_divide", "divide", "zeros_like", "ones_like", "pi"}
+
+    def floaty_expr(self, node, depth=0):
+        """is the value of this expression certainly of a floating dtype?  (a true division, a non-integral float literal,
+        or a numpy function that returns floats; locals are looked through)"""
+        if depth > 3:
+            return False
+        fr = self.frames[-1] if self.frames else None
+        for n in ast.walk(node):
+            if isinstance(n, ast.BinOp) and isinstance(n.op, ast.Div):
+                return True
+            if isinstance(n, ast.Constant) and isinstance(n.value, float):
+                return True
+            if isinstance(n, ast.Call):
+                f = n.func
+                nm = f.attr if isinstance(f, ast.Attribute) else getattr(f, "id", "")
+                if nm in self.FLOAT_FUNCS and not any(k.arg == "dtype" for k in n.keywords):
+                    return True
+            if isinstance(n, ast.Attribute) and n.attr == "pi":
+                return True
+        return False
+
     def val_id(self, v: Val):
         """identity of the value `v` was copied from (through array/asarray/copy): see tag 'val-of'."""
         for t in v.tags:
@@ -437,8 +475,8 @@ class Interp:
             cur = self.load_name(t.id, st, t)
             res = self.binop(s.op, cur, rhs, st, s)
             if "maybe-int" in cur.tags and cur.kind == "arr":
-                if opname == "Div" or (opname in ("Add", "Sub", "Mult") and rhs.is_number_const() and isinstance(rhs.const, float)
-                                       and not float(rhs.const).is_integer()):
+                if opname == "Div" or (opname in ("Add", "Sub", "Mult") and ((rhs.is_number_const() and isinstance(rhs.const, float)
+                                       and not float(rhs.const).is_integer()) or self.floaty_expr(s.value))):
                     self.emit(st, "int-inplace", s, op=opname, rhs=rhs, target=t.id, cur=cur)
                 res = res.copy(tags=res.tags | {"maybe-int"})
             if cur.al and cur.kind not in ("int", "float", "bool", "str", "none"):
@@ -810,6 +848,9 @@ class Interp:
                 self.emit(st, "write", node, loc=(base.base.obj.oid, key), objcls=base.base.obj.cls, mode="rebind", op="set",
                           sub=None, rhs=v, cur=None, result=v)
                 return
+            if "maybe-int" in base.tags and base.kind == "arr" and isinstance(target.value, ast.Name) and isinstance(node, ast.Assign) \
+                    and self.floaty_expr(node.value) and "maybe-int" not in v.tags:
+                self.emit(st, "int-inplace", node, op="store", rhs=v, target=target.value.id, cur=base)
             self.write_inplace(base, "set", (target.slice, idx), v, st, node)
             if "dup-index" in idx.tags:
                 self.emit(st, "scatter-dup", node, index=idx, value=v, target=ast.unparse(target.value))
@@ -1072,6 +1113,8 @@ class Interp:
                 tr=trans.TR_ATTR.get(attr))
         if attr == "_vertices":
             v.tags = v.tags | {("rows-of", "_vertices", 0)}      # number of rows relative to the vertex count
+        if attr in self.config.get("maybe_int_attrs", ()):
+            v.tags = v.tags | {"maybe-int"}          # stored as np.array(value) without dtype: integer input stays integer
         if attr in ("_vertices", "_centroid"):
             v.tags = v.tags | {"world3"}                          # coordinates in the world frame (not rotated into a plane)
         if kind == "float":
@@ -1347,6 +1390,11 @@ class Interp:
             out.tr = trans.binop(op, l, r)
         rl = {t for t in l.tags if isinstance(t, tuple) and t[0] == "rows-of"}
         rr = {t for t in r.tags if isinstance(t, tuple) and t[0] == "rows-of"}
+        ol_, or__ = order_of(l), order_of(r)
+        if ol_ and or__ and ol_ != or__ and l.kind in ("arr", "list", "unknown") and r.kind in ("arr", "list", "unknown"):
+            self.emit(st, "order-mismatch", node, left=l, right=r, orders=(ol_, or__))
+        elif (ol_ or or__) and out.kind in ("arr", "unknown"):
+            out.tags = out.tags | {("order", ol_ or or__)}
         if isinstance(op, ast.Div) and "norm" in r.tags and r.kind in ("float", "arr") and l.kind in ("arr", "unknown") \
                 and (r.deps or r.pdeps) and {d for d in r.deps if d[0] != "call"} <= l.deps and r.pdeps <= l.pdeps:
             out.tags = out.tags | {"unit"}        # x / |x|: a unit vector
@@ -1645,6 +1693,16 @@ class Interp:
 
     def e_ListComp(self, n, st):
         el = self._comp(n, st, lambda: self.ev(n.elt, st))
+        # the order of the produced sequence is the order of the (single) iterable it walks
+        if len(n.generators) == 1 and not n.generators[0].ifs:
+            it_ = self.ev(n.generators[0].iter, st)
+            src_ = order_of(it_)
+            if src_ is None:
+                for t_ in it_.tags:
+                    if isinstance(t_, tuple) and t_[0] == "ret" and isinstance(t_[1], str) and t_[1].startswith("_get_face_intersections"):
+                        src_ = "face-intersections"
+            if src_ is not None:
+                el = el.copy(tags=el.tags | {("order", src_)})
         kind = "list" if isinstance(n, ast.ListComp) else ("set" if isinstance(n, ast.SetComp) else "gen")
         k2 = kind
         if el.kind == "idx" and kind == "list":
@@ -1750,6 +1808,22 @@ class Interp:
                 kwargs[k.arg] = self.ev(k.value, st)
         n0 = len(self.events)
         out = self.call_val(f, args, kwargs, st, n)
+        if self.config.get("axis_symmetry") and f.kind == "ext" and f.ext.rsplit(".", 1)[-1] in (
+                "sorted", "min", "max", "sort", "amax", "amin", "maximum", "minimum"):
+            # order-free combinations of the two semi-axes: the result cannot tell `a` from `b`
+            flat = []
+            for a_ in args:
+                flat.extend(a_.items if a_.items is not None else [a_])
+            A_, B_ = ("self", "_a"), ("self", "_b")
+            if any(A_ in x.deps for x in flat) and any(B_ in x.deps for x in flat) and not all((A_ in x.deps and B_ in x.deps) for x in flat):
+                def _sym(v_):
+                    nv = v_.copy(deps=(v_.deps - {A_, B_}) | {("sym", "a|b")})
+                    if nv.items is not None:
+                        nv.items = tuple(_sym(i_) for i_ in nv.items)
+                    if nv.elem is not None:
+                        nv.elem = _sym(nv.elem)
+                    return nv
+                out = _sym(out)
         # an axis-less reduction of a batch-carrying array collapses the batch into one value: harmless in a control test,
         # wrong if it reaches a result -> pseudo-dependence ('collapsed', site) that travels with the value
         for e in self.events[n0:]:
